@@ -127,9 +127,14 @@ static int _jbl_unescape_json_string(JCTX *ctx, const char q, const char *p, cha
           ++p, ++d;
           break;
         case 'n':
-        case 'r':
           if (d < de) {
             *d = '\n';
+          }
+          ++p, ++d;
+          break;
+        case 'r':
+          if (d < de) {
+            *d = '\r';
           }
           ++p, ++d;
           break;
